@@ -7,4 +7,5 @@ git -C /repo worktree prune
 git -C /repo worktree add -q --detach "$D/wt" HEAD || exit 1
 (cd "$D/wt" && find . -name 'zz_verif_*.go' -delete && git -c user.name=s -c user.email=s@x commit -qam "drop verif hooks" )
 jq "select(.id==\"$ID\")" /verif/properties.jsonl > "$D/property.json"
+cp /verif/docs/SEED_PROMPT.md "$D/TASK.md"
 echo "$D"
